@@ -4,9 +4,9 @@ From Mos Require Import Base.Prelude Codec.Name Codec.Msg Codec.NameProofs Codec
   Cache.CacheKey Cache.CacheKeyProofs Cache.Netlist Cache.NetlistProofs Cache.CacheMem Cache.CacheMemProofs.
 
 (* ------------------------------------------------------------------ the key ------------------------------ *)
-(* The key the router builds (ToLowerName, then cacheKey = name ‖ 0 ‖ class ‖ type ‖ group label) determines
-   the question name up to ASCII case, the class, the type and the group label: two requests that find the
-   same cache entry are the same question from the same client group.  Names are the decoder's output, hence
+(* The key the router builds (ToLowerName, then cacheKey = name ‖ 0 ‖ class ‖ type ‖ group label_cm) determines
+   the question name up to ASCII case, the class, the type and the group label_cm: two requests that find the
+   same cache entry_cm are the same question from the same client group.  Names are the decoder's output, hence
    well-formed (unpack_name_wf); class and type are 16-bit.  No further side condition (full injectivity,
    after fix K2 put a terminating zero octet behind the name). *)
 Theorem C07_key_injective : forall n1 c1 t1 m1 n2 c2 t2 m2,
@@ -29,15 +29,15 @@ Theorem C07_key_deterministic : forall n1 n2 c t m,
 Proof. exact req_key_complete. Qed.
 Print Assumptions C07_key_deterministic.
 
-(* the executable oracle run by the correspondence check on every pair of requests is implied *)
+(* the executable oracle cm_run by the correspondence check on every pair of requests is implied *)
 Theorem C07_key_oracle : forall n1 c1 t1 m1 n2 c2 t2 m2,
   wf_name n1 -> wf_name n2 -> (c1 < 65536)%N -> (c2 < 65536)%N -> (t1 < 65536)%N -> (t2 < 65536)%N ->
   spec_keys n1 c1 t1 m1 n2 c2 t2 m2 (req_key n1 c1 t1 m1) (req_key n2 c2 t2 m2) = true.
 Proof. exact spec_keys_sound. Qed.
 Print Assumptions C07_key_oracle.
 
-(* The layout of the pinned tree (name ‖ class ‖ type ‖ label, no terminator; D3 repaired) is injective only
-   when the high octet of the class cannot be read as a label length ... *)
+(* The layout of the pinned tree (name ‖ class ‖ type ‖ label_cm, no terminator; D3 repaired) is injective only
+   when the high octet of the class cannot be read as a label_cm length ... *)
 Theorem C07_key_injective_partial : forall n1 c1 t1 m1 n2 c2 t2 m2,
   wf_name n1 -> wf_name n2 -> (c1 < 65536)%N -> (c2 < 65536)%N -> (t1 < 65536)%N -> (t2 < 65536)%N ->
   ((c1 < 256)%N \/ (16384 <= c1)%N) -> ((c2 < 256)%N \/ (16384 <= c2)%N) ->
@@ -63,8 +63,8 @@ Theorem C07_build_ok_iff : forall rs,
 Proof. exact build_ok_iff. Qed.
 Print Assumptions C07_build_ok_iff.
 
-(* the binary search over the built list never panics or runs out of fuel and returns exactly the label of
-   the range of the INPUT file that contains the address (none: no label) *)
+(* the binary search over the built list never panics or runs out of fuel and returns exactly the label_cm of
+   the range of the INPUT file that contains the address (none: no label_cm) *)
 Theorem C07_lookup_spec : forall rs es ip, build rs = Some es -> lookup es ip = Ok (linear_spec rs ip).
 Proof. exact lookup_spec. Qed.
 Print Assumptions C07_lookup_spec.
@@ -86,44 +86,44 @@ Print Assumptions C07_lookup_safe.
 
 (* an IPv4 client and the same client seen as a v4-mapped IPv6 address are in the same group *)
 Theorem C07_v4_mapped_same : forall m x,
-  mark_of m (Some (A4 x)) = mark_of m (Some (A6 (v4_prefix + x)%N)).
+  mark_of m (Some (NlA4 x)) = mark_of m (Some (NlA6 (v4_prefix + x)%N)).
 Proof. exact v4_mapped_same. Qed.
 Print Assumptions C07_v4_mapped_same.
 
 (* ------------------------------------------------------------------ the memory cache --------------------- *)
 (* In EVERY interleaving of any number of goroutines calling Store and Get with evictions, releases and
-   recycling of entries at arbitrary points (all states reachable by [run] from [init]; each label is one
-   atomic action of mem.go), every Get(k) that returned v was preceded by a call Store(k, v): the key
-   re-check under the entry's read lock turns a recycled or released entry into a miss, never into the
+   recycling of entries at arbitrary points (all states reachable by [cm_run] from [cm_init]; each label_cm is one
+   atomic action of cm_mem.go), every Get(k) that returned v was preceded by a call Store(k, v): the key
+   re-check under the entry_cm's read lock turns a recycled or released entry_cm into a miss, never into the
    answer to another question.  (trace is newest first: l2 is the past of the hit.) *)
-Theorem C07_hit_same_key : forall ls s, run ls init = Some s ->
-  forall l1 k v l2, trace s = l1 ++ EvHit k v :: l2 -> In (EvStore k v) l2.
+Theorem C07_hit_same_key : forall ls s, cm_run ls cm_init = Some s ->
+  forall l1 k v l2, trace s = l1 ++ CmHit k v :: l2 -> In (CmStore k v) l2.
 Proof. exact hit_same_key. Qed.
 Print Assumptions C07_hit_same_key.
 
-(* the lock discipline that the proof rests on, as facts about every reachable state *)
-Theorem C07_lock_excludes_readers : forall ls s, run ls init = Some s ->
+(* the lock discipline that the proof rests on, as facts about every reachable state_cm *)
+Theorem C07_lock_excludes_readers : forall ls s, cm_run ls cm_init = Some s ->
   forall e, e_w (ents s e) <> None -> e_r (ents s e) = [].
 Proof. exact lock_excludes_readers. Qed.
 Print Assumptions C07_lock_excludes_readers.
 
-Theorem C07_checked_key_stable : forall ls s, run ls init = Some s ->
+Theorem C07_checked_key_stable : forall ls s, cm_run ls cm_init = Some s ->
   forall t k e, thr s t = GCopy k e -> e_k (ents s e) = k /\ e_v (ents s e) <> None /\ e_w (ents s e) = None.
 Proof. exact checked_key_stable. Qed.
 Print Assumptions C07_checked_key_stable.
 
 (* the quiescent histories replayed against the real MemoryCache are schedules of that system *)
-Theorem C07_big_refines_small : forall os s s', big_run os s = Some s' -> exists ls, run ls s = Some s'.
+Theorem C07_big_refines_small : forall os s s', big_run os s = Some s' -> exists ls, cm_run ls s = Some s'.
 Proof. exact big_refines_small. Qed.
 Print Assumptions C07_big_refines_small.
 
 (* ------------------------------------------------------------------ repeat => hit ------------------------ *)
-(* FULL statement (not proved in this generality): in a run without eviction of k and with ample capacity, after
+(* FULL statement (not proved in this generality): in a cm_run without eviction of k and with ample capacity, after
    Store(k, v) with lifetime L at time t0, ANY Get(k) issued while more than 1 s of the lifetime remains returns
    a hit — whatever other goroutines store or look up in between.
    PROVED: the same for quiescent histories in which, between the store of k and the repeat, only lookups (of
-   any keys) and the passage of time occur (no other store, no eviction): from every quiescent state s with the
-   backend clock lagging less than 1 s (QU, clock_ok: true of init and preserved by stores/lookups/sleeps,
+   any keys) and the passage of time occur (no other store, no eviction): from every quiescent state_cm s with the
+   backend clock lagging less than 1 s (QU, clock_ok: true of cm_init and preserved by stores/lookups/sleeps,
    C07_quiescent), Store(k, v, ttl) succeeds and every later Get(k) issued while now + 1 s < t0 + ttl is a hit
    returning v.  With C07_key_deterministic (a repeat of the query builds the same key) and the request path of
    router.go (a hit returns before `forward`), the repeat causes no upstream exchange.  The gap (interleaved
@@ -132,7 +132,7 @@ Theorem C07_repeat_hits_partial : forall s k v ttl, QU s -> clock_ok s ->
   exists s2, big_store k v ttl false s = Some s2 /\
     forall ops s3, Forall passive ops -> big_run ops s2 = Some s3 ->
       (now s3 + 1000 < now s + ttl)%N ->
-      exists s4, big_get k s3 = Some s4 /\ trace s4 = EvHit k v :: trace s3.
+      exists s4, big_get k s3 = Some s4 /\ trace s4 = CmHit k v :: trace s3.
 Proof. exact repeat_hits. Qed.
 Print Assumptions C07_repeat_hits_partial.
 
@@ -142,17 +142,17 @@ Proof. exact simple_history_quiescent. Qed.
 Print Assumptions C07_quiescent.
 
 Theorem C07_repeat_hits_history : forall ops1 s1 k v ttl,
-  Forall simple ops1 -> big_run ops1 init = Some s1 ->
+  Forall simple ops1 -> big_run ops1 cm_init = Some s1 ->
   exists s2, big_store k v ttl false s1 = Some s2 /\
     forall ops2 s3, Forall passive ops2 -> big_run ops2 s2 = Some s3 ->
       (now s3 + 1000 < now s1 + ttl)%N ->
-      exists s4, big_get k s3 = Some s4 /\ trace s4 = EvHit k v :: trace s3.
+      exists s4, big_get k s3 = Some s4 /\ trace s4 = CmHit k v :: trace s3.
 Proof. exact repeat_hits_history. Qed.
 Print Assumptions C07_repeat_hits_history.
 
 (* ------------------------------------------------------------------ the value ---------------------------- *)
 (* packCacheMsg then unpackCacheMsg (uncompressed wire form, then s2 as an oracle pair with the round-trip
-   law) gives back a message with the same view — header (rcode, flags, id), questions, and per record owner,
+   law) gives back a message with the same view — header (rcode, flags, id), questions, and per record owner_cm,
    type, class, TTL and data in the same sections and order — for every response the decoder accepted.
    TTL ageing and the ID fix-up happen afterwards (C08 / C03). *)
 Theorem C07_value_unchanged : forall (enc : list N -> list N) (dec : list N -> option (list N)),
@@ -171,27 +171,27 @@ Proof. vm_compute. repeat split; discriminate. Qed.
 
 (* 10.0.0.0-10.0.0.255 -> "a", ::1-::2 -> "b" given out of order; plain and v4-mapped 10.0.0.7 agree *)
 Example C07_example_marker :
-  let m := load_marker [MRange (A6 1) (A6 2) [98]%N; MBlank; MRange (A4 167772160) (A4 167772415) [97]%N] in
-  mark_of m (Some (A4 167772167)) = Ok [97]%N /\
-  mark_of m (Some (A6 (v4_prefix + 167772167)%N)) = Ok [97]%N /\
-  mark_of m (Some (A6 2)) = Ok [98]%N /\ mark_of m (Some (A6 3)) = Ok [] /\
-  load_marker [MRange (A4 5) (A4 9) [97]%N; MRange (A4 9) (A4 12) [98]%N] = None /\
-  load_marker [MRange (A4 9) (A4 5) [97]%N] = None.
+  let m := load_marker [MRange (NlA6 1) (NlA6 2) [98]%N; MBlank; MRange (NlA4 167772160) (NlA4 167772415) [97]%N] in
+  mark_of m (Some (NlA4 167772167)) = Ok [97]%N /\
+  mark_of m (Some (NlA6 (v4_prefix + 167772167)%N)) = Ok [97]%N /\
+  mark_of m (Some (NlA6 2)) = Ok [98]%N /\ mark_of m (Some (NlA6 3)) = Ok [] /\
+  load_marker [MRange (NlA4 5) (NlA4 9) [97]%N; MRange (NlA4 9) (NlA4 12) [98]%N] = None /\
+  load_marker [MRange (NlA4 9) (NlA4 5) [97]%N] = None.
 Proof. vm_compute. repeat split. Qed.
 
-(* a reader that obtained the entry of k1 and then lost the race against eviction + recycling for k2 gets a
+(* a reader that obtained the entry_cm of k1 and then lost the race against eviction + recycling for k2 gets a
    miss; k2 is served its own value; the hypotheses of C07_hit_same_key are met by this schedule *)
 Example C07_example_recycle :
-  match big_run [OStore [1] [10] 60000 false; OGet [1]; ORace 2 [1] [2] [20]; OGet [2]; OGet [1]]%N init with
-  | Some s => returns s = [EvHit [1] [10]; EvMiss [1]; EvHit [2] [20]; EvMiss [1]]%N
+  match big_run [OStore [1] [10] 60000 false; OGet [1]; ORace 2 [1] [2] [20]; OGet [2]; OGet [1]]%N cm_init with
+  | Some s => returns s = [CmHit [1] [10]; CmMiss [1]; CmHit [2] [20]; CmMiss [1]]%N
   | None => False
   end.
 Proof. vm_compute. reflexivity. Qed.
 
 (* lifetime 4 s: hits at +0 s and +2.9 s (more than 1 s remains), whatever else is looked up in between *)
 Example C07_example_repeat :
-  match big_run [OStore [1] [10] 4000 false; OGet [1]; OSleep 999; OGet [2]; OSleep 999; OSleep 900; OGet [1]]%N init with
-  | Some s => returns s = [EvHit [1] [10]; EvMiss [2]; EvHit [1] [10]]%N /\ now s = 2898%N
+  match big_run [OStore [1] [10] 4000 false; OGet [1]; OSleep 999; OGet [2]; OSleep 999; OSleep 900; OGet [1]]%N cm_init with
+  | Some s => returns s = [CmHit [1] [10]; CmMiss [2]; CmHit [1] [10]]%N /\ now s = 2898%N
   | None => False
   end.
 Proof. vm_compute. split; reflexivity. Qed.
